@@ -3,7 +3,6 @@ package props
 import (
 	"go/token"
 	"go/types"
-	"sort"
 	"strings"
 
 	"golang.org/x/tools/go/ssa"
@@ -501,14 +500,4 @@ func buildsStruct(al *ssa.Alloc) bool {
 		}
 	}
 	return false
-}
-
-// SortedFuncs returns the keys of a function set in a stable order.
-func SortedFuncs(m map[*ssa.Function]bool) []*ssa.Function {
-	var out []*ssa.Function
-	for f := range m {
-		out = append(out, f)
-	}
-	sort.Slice(out, func(i, j int) bool { return out[i].String() < out[j].String() })
-	return out
 }
